@@ -93,7 +93,7 @@ class C16(common.Prop):
             "replayed by seed, and the Pose-level wrappers (slice_step, frame_dropout_uniform/_normal); thorough adds every fraction k/n "
             "with its two float neighbours and every step for n = 1..12 on the three backends; every result is compared "
             "with the extracted model channel by channel, fps bit for bit; non-trivial = input inside the property's quantifier "
-            "(in-range index list, by >= 1, fraction in [0,1]); distinct by content hash")
+            "(in-range index list, by >= 1, fraction in [0,1]); distinct by content hash " "Half of the Pose-level calls run on a Pose object used before with another body; arrays / tensors in C, Fortran-or-transposed and strided layouts.")
     TRUSTED = ["Coq 8.16.1 kernel (vm_compute for the finite cap sweep and the refuted witnesses)",
                "harness/translate_c16.py (fail-closed ast translator)",
                "extraction: ExtrOcamlBasic only; runner/driver.ml",
